@@ -132,4 +132,19 @@ PROPS = {
             "the static facet of the quantifier (all functions reachable from Execute, for all inputs) is not addressed by this technique",
         ],
     },
+    "C05": {
+        "journal": True,
+        "replay_race": True,
+        "confirm_tries": 6,
+        "quick": [
+            {"test": "TestC05Concurrent", "checks": 900, "shards": 3, "race": True, "gomaxprocs": [2, 4, 16]},
+        ],
+        "thorough": [
+            {"test": "TestC05Concurrent", "checks": 48000, "shards": 16, "race": True, "gomaxprocs": [2, 4, 16, 8]},
+        ],
+        "assumptions": [
+            "schedules are sampled (goroutine counts 2-8, GOMAXPROCS 2/4/8/16), not enumerated; the race detector only sees pairs of accesses that were executed",
+            "a race report that cannot be confirmed from the journalled workload in fresh processes ends the run as inconclusive (exit 2), not as a violation",
+        ],
+    },
 }
